@@ -110,8 +110,11 @@ _COV_MEMO = {}
 FN_CALL = re.compile(r"^std::ops::Fn(Once|Mut)?::call(_once|_mut)?$")
 
 
+VIS = "rusty_linter::core::visitor::Visitor"
+
+
 def _is_visit_sink(t):
-    return t.get("ctrait") in (PCL, ER)
+    return t.get("ctrait") in (PCL, ER, VIS)
 
 
 def _is_closure_call(t):
@@ -287,12 +290,22 @@ def r1_traversal(ctx, rule="C08.R1"):
                 passes.append((name, impl, tr, "stmt"))
     if len(passes) < 4:
         raise CheckError("only %d call-inspecting passes found" % len(passes))
+    # the generic deep statement walker that drives ForNextCounterMatch, PrintLinter, ...
+    deep = [f for f in prog.fns.values() if f.name == "visit" and f.impl and f.impl.get("trait") == VIS
+            and re.sub(r"<.*", "", f.impl["self_ty"]).split("::")[-1] == "DeepStatementVisitor"]
+    if len(deep) < 8:
+        raise CheckError("only %d Visitor impls of DeepStatementVisitor found" % len(deep))
+    passes.append(("DeepStatementVisitor", {"file": deep[0].file, "line": deep[0].line, "self_ty": "DeepStatementVisitor",
+                                            "_fns": deep}, None, "stmt"))
     n_slots = 0
     for name, impl, tr, kind in sorted(passes, key=lambda x: x[0]):
         required = required_expr if kind == "expr" else required_stmt
-        eff = effective_methods(prog, impl, tr)
-        fns = list(eff.values())
-        fns += helpers_in_module(prog, [f for f in fns if f.impl is impl or (f.impl and f.impl["id"] == impl["id"])])
+        if "_fns" in impl:
+            fns = list(impl["_fns"])
+        else:
+            eff = effective_methods(prog, impl, tr)
+            fns = list(eff.values())
+            fns += helpers_in_module(prog, [f for f in fns if f.impl is impl or (f.impl and f.impl["id"] == impl["id"])])
         covered = set()
         for f in fns:
             covered |= coverage_resolved(prog, f)
